@@ -1,0 +1,14 @@
+//go:build verif
+
+package state
+
+// Contracts for the govc verifier (/verif). Comment-only.
+
+// The shared pinset as an abstract map CID -> stored pin (ghost).
+//@ ghost var pinset map[cid.Cid]api.Pin
+
+//@ interface ReadOnly.Get(ctx, c)
+//@   ensures err == nil ==> res != nil && haskey(pinset, c) && *res == pinset[c] && res.Cid == c
+//@   ensures err != nil ==> res == nil
+//@   ensures !haskey(pinset, c) ==> err != nil
+//@   modifies nothing
